@@ -109,20 +109,33 @@ def acLoops (num : Nat) : Option (Bq Label) :=
 
 /-! ## frustrated loops, as a function of the recorded cycles -/
 
-/-- `cycle[i - 1]` with Python's negative index for `i = 0` -/
-def prevOf (c : List Label) (i : Nat) : Label := c.getD ((i + c.length - 1) % c.length) (.int 0)
+/-- the interactions `(cycle[i-1], cycle[i])` for `i = start, start+1, …` along the list, with coupling `sg i` -/
+def walkBag (sg : Nat → Rat) : Label → List Label → Nat → List (PTerm Label)
+  | _, [], _ => []
+  | u, v :: r, i => PTerm.quad u v (sg i) :: walkBag sg v r (i + 1)
 
-/-- `plant_solution=True`: `cycle_J = {(cycle[i-1], cycle[i]): -1 …}; cycle_J[(cycle[idx-1], cycle[idx])] = 1`,
-    then `add_interactions_from(cycle_J)` (the keys are different ordered pairs: a cycle has ≥ 3 different nodes) -/
+def lastOf : Label → List Label → Label
+  | u, [] => u
+  | _, v :: r => lastOf v r
+
+/-- `plant_solution=True`: `cycle_J = {(cycle[i-1], cycle[i]): -1 for i in range(L)}; cycle_J[(cycle[idx-1], cycle[idx])] = 1`,
+    then `add_interactions_from(cycle_J)`: in dict order `i = 0` (the pair `(cycle[-1], cycle[0])`), `1`, …, `L−1`
+    (the keys are different ordered pairs: a cycle has ≥ 3 different nodes) -/
 def flPlanted (c : List Label) (idx : Nat) : List (PTerm Label) :=
-  (List.range c.length).map (fun i => PTerm.quad (prevOf c i) (c.getD i (.int 0)) (if i = idx then 1 else -1))
+  match c with
+  | [] => []
+  | u :: r => PTerm.quad (lastOf u r) u (if 0 = idx then 1 else -1) :: walkBag (fun i => if i = idx then 1 else -1) u r 1
 
-/-- `plant_solution=False` as coded: `(cycle[i], cycle[i+1]): -1` for the first `L − 1` edges, the closing edge
-    `(cycle[-1], cycle[0])` gets `(1 − 2·((L−1) & 1)) · Π(−1) = +1` -/
+/-- the closing coupling of `plant_solution=False` as coded: `(1 − 2·(len(cycle_J) & 1)) · Π cycle_J.values()` with
+    `len(cycle_J) = L − 1` entries, all `−1` -/
+def flClosing (L : Nat) : Rat := (1 - 2 * (((L - 1) % 2 : Nat) : Rat)) * (if (L - 1) % 2 = 0 then 1 else -1)
+
+/-- `plant_solution=False` as coded: `(cycle[i], cycle[i+1]): -1` for the first `L − 1` edges, then the closing edge
+    `(cycle[-1], cycle[0])` -/
 def flUnplanted (c : List Label) : List (PTerm Label) :=
-  (List.range (c.length - 1)).map (fun i => PTerm.quad (c.getD i (.int 0)) (c.getD (i + 1) (.int 0)) (-1))
-  ++ [PTerm.quad (c.getD (c.length - 1) (.int 0)) (c.getD 0 (.int 0))
-        ((1 - 2 * (((c.length - 1) % 2 : Nat) : Rat)) * (if (c.length - 1) % 2 = 0 then 1 else -1))]
+  match c with
+  | [] => []
+  | u :: r => walkBag (fun _ => -1) u r 0 ++ [PTerm.quad (lastOf u r) u (flClosing (r.length + 1))]
 
 /-- the model before the `planted_solution` gauge: the initial zero biases on the nodes and edges of the graph, then
     the interactions of every good cycle in order; a cycle comes with `some idx` (planted) or `none` -/
